@@ -22,6 +22,7 @@ struct DocCfg {
     bool ns = true;           // use prefixed / default namespaces
     bool rebind = false;      // some subtrees bind the prefix p1 to another namespace (same QName, different expanded-name)
     bool dtd = false;         // internal subset declaring id as ID (and DOCTYPE present)
+    bool extDtd = false;      // with dtd: an external subset "ext.dtd" as well (attribute defaults, one more ID attribute); GenDoc::resources holds it
     bool comments = true, pis = true;
     bool exoticText = true;   // markup chars, non-ASCII, supplementary, CR/TAB refs
     bool wsText = true;       // whitespace-only text nodes
@@ -37,6 +38,7 @@ struct GenDoc {
     int nElems = 0;
     std::vector<std::string> names;   // distinct element qnames used
     std::vector<std::string> ids;     // ids in document order
+    std::map<std::string, std::string> resources;   // what the document refers to (the external DTD subset)
 };
 
 inline std::string xmlEsc(const std::string& s, bool attr = false) {
@@ -130,7 +132,8 @@ struct DocGen {
         if (c.deep) { std::string open, close; for (int i = 0; i < c.deepLevels; ++i) { open += "<d>"; close += "</d>"; } body += open + "deep" + close; }
         if (c.longName) { std::string n(1000, 'L'); body += "<" + n + " id=\"nL\">long</" + n + ">"; }
         if (c.dtd) {
-            s += "<!DOCTYPE doc [\n";
+            if (c.extDtd) { s += "<!DOCTYPE doc SYSTEM \"ext.dtd\" [\n"; out.resources["ext.dtd"] = "<!ATTLIST doc dflt CDATA \"dv\">\n<!ATTLIST item dfl2 (x|y) \"x\">\n<!ATTLIST a dfl3 CDATA \"three\" k CDATA \"k9\">\n<!ATTLIST sec xid ID #IMPLIED>\n"; }
+            else s += "<!DOCTYPE doc [\n";
             std::vector<std::string> nm = out.names;
             for (auto& n : nm) s += "<!ATTLIST " + n + " id ID #IMPLIED ref IDREF #IMPLIED>\n";
             s += "<!NOTATION gif SYSTEM \"viewer.exe\">\n<!ENTITY pic SYSTEM \"pic.gif\" NDATA gif>\n";
